@@ -94,6 +94,9 @@ def robustness_inputs(ctx, n):
     DIRS = ["#", "# 1", "# 1 \"f.c\"", "#line 7", "#line 7 \"g.c\" 3", "# line", "#include <x.h>", "#define A(x) x", "# expansion", "# expansion begin", "# expansion begin 1 , 2",
             "# expansion begin 1 , 2 ~ 3 4 : 5", "# expansion begin 1 , 2 foo", "# expansion begin 1 , 2 ~", "# expansion begin 1 , 2 ~ 99999999999", "# expansion begin 1 , 2 7 :",
             "# expansion begin 1 , 2 ~ 0xFFFFFFFFFFFFFFFF 3 : 4 ~ 2", "# expansion end", "# expansion other", "%: 5", "??= 5"]
+    # numbers at and beyond the limits of every integer type, wherever the front end reads a number itself (line markers, #line, expansion
+    # markers) and wherever a constant may stand: a conversion that saturates is fine, one that throws or wraps into an index is not
+    out[:0] = [("extreme-number", t.encode()) for t in extreme_number_inputs()]
     for i in range(len(out)):
         if rng.random() < 0.12:
             kind, data = out[i]
@@ -112,6 +115,24 @@ def robustness_inputs(ctx, n):
             if braces:
                 j = rng.choice(braces) + 1
                 out[i] = (kind + "+ambig", data[:j] + rng.choice(AMBIG) + data[j:])
+    return out
+
+
+EXTREME_NUMBERS = ["0", "2147483647", "2147483648", "4294967295", "4294967296", "9223372036854775807", "9223372036854775808", "18446744073709551615",
+                   "18446744073709551616", "18446744073709551617", "99999999999999999999", "340282366920938463463374607431768211456", "1" + "0" * 400,
+                   "0xFFFFFFFFFFFFFFFF", "0x10000000000000000", "0x" + "F" * 40, "01777777777777777777777", "02000000000000000000000", "0" + "7" * 60,
+                   "18446744073709551616u", "18446744073709551616ULL", "1e400", "1e-400", "0x1p99999", "1.5", "1e", "0x", "08", "1__2", "-1", "+5"]
+
+
+def extreme_number_inputs():
+    out = []
+    for n in EXTREME_NUMBERS:
+        for form in ("# %s \"a.c\"\nint x;\n", "int y;\n# %s \"a.c\" 1\nint x = ;\n", "#line %s\nint x;\n", "int y;\n#line %s \"b.c\"\nint x = ;\n", "# %s\n",
+                     "# expansion begin %s , 2 ~ 3 4 : 5\nint x;\n", "# expansion begin 1 , %s ~ 3 4 : 5\nint x;\n", "# expansion begin 1 , 2 ~ %s 4 : 5\nint x;\n",
+                     "# expansion begin 1 , 2 ~ 3 %s : 5\nint x;\n", "# expansion begin 1 , 2 ~ 3 4 : %s\nint x = ;\n", "# expansion begin 1 , 2 %s : 5\nint x;\n",
+                     "int x = %s;\n", "int a[%s];\n", "enum e { K = %s };\n", "struct s { int f : %s; };\n", "void f(void) { switch (1) { case %s: ; } x = a[%s] + %s; }\n",
+                     "_Static_assert(%s, \"m\");\n", "int a[] = { [%s] = 1 };\n", "_Alignas(%s) int v;\n", "int x = '\\%s';\n"):
+            out.append(form.replace("%s", n))
     return out
 
 
